@@ -152,6 +152,9 @@ func checkC13(c *Ctx) {
 	// would read back altered the next time)
 	borrowRule(c, "C07", "C07.fresh", "C13.fresh")
 
+	// every character that can be written in a literal survives decoding of the source (U+FFFD is a character, not an error)
+	borrowRule(c, "C17", "C17.runeerror", "C13.decode")
+
 	// ---- C13.quotes: tables
 	pe0 := newPE(u, info, nil)
 	qmObj := u.obj("pkg/syntax/zh", "quoteMatchMap")
